@@ -1,17 +1,22 @@
 ------------------------------- MODULE Update -------------------------------
 (* Update methods (generator.convertTo, builder/struct.go shouldCheckAgainstZero and the builders' own nil guards)
    for a target with a basic (A int), a named struct (N), a pointer (P *int) and a slice (L []int) field, all of
-   identical type on both sides.
+   identical type on both sides; plus a plain map (M map[string]int) and a named map (NM UTags) -- the latter is converted by a call
+   of a generated helper, so only the explicit zero guard keeps a nil source from overwriting the target.
+   comb: the three categories are switched on by the single combined line `update:ignoreZeroValueField`.
    Must  = what C10 demands per field: "keep" (previous value), "conv" (conversion of the source field) or "open".
    Oper  = what the generator's patterns do.  Constant-level.                                               *)
 EXTENDS Naturals, Sequences, FiniteSets, TLC
 UFields == <<"A", "N", "P", "L">>
-KindOf == [f \in {"A", "N", "P", "L"} |-> CASE f = "A" -> "basic" [] f = "N" -> "struct" [] OTHER -> "nillable"]
-UProgs == {[basic |-> b, struct |-> s, nillable |-> n, skip |-> k, srcPtr |-> sp, ignoreA |-> ig, retErr |-> re] :
-             b \in BOOLEAN, s \in BOOLEAN, n \in BOOLEAN, k \in BOOLEAN, sp \in BOOLEAN, ig \in BOOLEAN, re \in BOOLEAN}
+AllUFields == {"A", "N", "P", "L", "M", "NM"}
+MFields == <<"M", "NM">>
+KindOf == [f \in AllUFields |-> CASE f = "A" -> "basic" [] f = "N" -> "struct" [] OTHER -> "nillable"]
+UProgs == {p \in [basic : BOOLEAN, struct : BOOLEAN, nillable : BOOLEAN, skip : BOOLEAN, srcPtr : BOOLEAN, ignoreA : BOOLEAN, retErr : BOOLEAN, comb : BOOLEAN] :
+             p.comb => (p.basic /\ p.struct /\ p.nillable)}
 \* a fifth target field LS []string fed by `map L LS | ToS` (a custom function changing the slice type): nillable category
 MustLS(p, nonzero) == IF "L" \in nonzero THEN "conv" ELSE IF p.nillable THEN "keep" ELSE "open"
-Valuations == SUBSET {"A", "N", "P", "L"}
+\* all valuations of the first four fields with nil maps, and all valuations of the maps with the others zero / non-zero
+Valuations == SUBSET {"A", "N", "P", "L"} \cup {v \cup m : v \in {{}, {"A", "N", "P", "L"}}, m \in SUBSET {"M", "NM"}}
 Selected(p, f) == (KindOf[f] = "basic" /\ p.basic) \/ (KindOf[f] = "struct" /\ p.struct) \/ (KindOf[f] = "nillable" /\ p.nillable)
 Must(p, f, nonzero) ==
   IF f = "A" /\ p.ignoreA THEN "keep"                      \* ignored fields keep their previous values
@@ -23,6 +28,7 @@ Oper(p, f, nonzero) ==
   ELSE IF f \in nonzero THEN "conv"
   ELSE CASE KindOf[f] = "basic" -> IF p.basic THEN "keep" ELSE "conv"
          [] KindOf[f] = "struct" -> IF p.struct THEN "keep" ELSE "conv"
+         [] f = "NM" -> IF p.nillable THEN "keep" ELSE "conv" \* a helper call (or a direct assignment) is not guarded by itself
          [] OTHER -> IF p.nillable THEN "keep"              \* explicit zero guard (skipCopy) or the builder's own nil guard
                      ELSE IF p.skip THEN "conv"             \* identical types are assigned directly: nil overwrites
                      ELSE "keep"                            \* nil pointer / slice: the builder's nil guard never assigns
